@@ -794,10 +794,13 @@ class spawn(SpawnBase):
             p.interact()
         '''
 
-        # Flush the buffer.
-        self.write_to_stdout(self.buffer)
+        # Flush the pending output: all of it (the search buffer may have been
+        # trimmed to its tail by an earlier expect that timed out), and it
+        # is no longer pending afterwards.
+        self.write_to_stdout(self._before.getvalue())
         self.stdout.flush()
         self._buffer = self.buffer_type()
+        self._before = self.buffer_type()
         mode = tty.tcgetattr(self.STDIN_FILENO)
         tty.setraw(self.STDIN_FILENO)
         if escape_character is not None and PY3:
